@@ -13,6 +13,7 @@ import (
 	"errors"
 	"fmt"
 	"io"
+	"log"
 	"os"
 	"reflect"
 	"runtime/debug"
@@ -32,6 +33,10 @@ func main() {
 		}
 	}
 	debug.SetMaxStack(256 << 20)
+	// the debug log is formatted for real and thrown away (io.Discard itself
+	// would make the log package skip the formatting)
+	log.SetOutput(logSink{})
+	log.SetFlags(0)
 	in := bufio.NewReaderSize(os.Stdin, 1<<20)
 	out := bufio.NewWriterSize(os.Stdout, 1<<20)
 	for {
@@ -63,6 +68,10 @@ func main() {
 		}
 	}
 }
+
+type logSink struct{}
+
+func (logSink) Write(p []byte) (int, error) { return len(p), nil }
 
 func execute(req *wire.Request) *wire.Result {
 	res := &wire.Result{Run: req.Run, Tasks: make([][]wire.OpResult, len(req.Tasks))}
@@ -179,14 +188,21 @@ type taskState struct {
 	// would; they are turned into strings only then
 	held map[int][]byte
 	cur  int
+	// debug: SetDebug(true) right after New()
+	debug bool
+	// envUndo restores what Setenv ops changed, at the end of the task
+	envUndo []func()
 }
 
 var progress *bufio.Writer
 
 func runTask(ti int, spec *wire.TaskSpec) []wire.OpResult {
 	out := make([]wire.OpResult, len(spec.Ops))
-	ts := &taskState{docs: map[string]*bkl.Document{}, held: map[int][]byte{}}
+	ts := &taskState{docs: map[string]*bkl.Document{}, held: map[int][]byte{}, debug: spec.Debug}
 	defer func() {
+		for i := len(ts.envUndo) - 1; i >= 0; i-- {
+			ts.envUndo[i]()
+		}
 		for i, b := range ts.held {
 			s := string(b)
 			out[i].Bytes = &s
@@ -295,6 +311,9 @@ func runOp(ts *taskState, op *wire.Op) (r wire.OpResult) {
 		if err != nil {
 			return wire.OpResult{Outcome: "err", Err: "New: " + err.Error()}
 		}
+		if ts.debug {
+			p.SetDebug(true)
+		}
 		ts.p = p
 	}
 	fail := func(err error) wire.OpResult {
@@ -302,6 +321,10 @@ func runOp(ts *taskState, op *wire.Op) (r wire.OpResult) {
 	}
 	r = wire.OpResult{Outcome: "ok"}
 	switch op.Op {
+	case "Setenv":
+		// the process environment changes between two calls (Path = name,
+		// Format = value, "" unsets); sequential execution only
+		ts.envUndo = append(ts.envUndo, setEnv(map[string]string{op.Path: op.Format}))
 	case "SetRoot":
 		if err := ts.p.SetRoot(op.Path); err != nil {
 			return fail(err)
